@@ -1180,7 +1180,8 @@ class TaskScenario(ScenarioData):
 
         consecutive_count = 0
         current_slot = self.currentSlotIdx if self.currentSlotIdx is not None else 0
-        max_slots = 1000
+        # A block that would run past the last slot of the project does not fit
+        max_slots = self.project.scoreboardSize()
 
         while current_slot < max_slots and consecutive_count < slots_needed:
             if self.project.isWorkingTime(current_slot):
